@@ -33,5 +33,7 @@ public:
     static json object();
     bool operator==(const json&) const;
     bool operator!=(const json&) const;
+    template <typename T> friend bool operator==(const T&, const json&);
+    template <typename T> friend bool operator!=(const T&, const json&);
 };
 }  // namespace nlohmann
